@@ -84,6 +84,12 @@ _NONSTATIO = [
     (2, (4, 4, 1, 2, 2), (6, 2, 1, 2, 2)),   # time full -> 0
     (2, (7, 1, 3, 4, 1), (6, 3, 1, 3, 1)),   # selT > selX: time 2, space 3 -> 2
     (2, (9, 1, 2, 3, 1), (9, 1, 2, 3, 1)),   # -> 4
+    # initial counts far apart, both ways, at least 4 steps: a mask / offset written with the other
+    # store's initial count shows only in the early steps (it heals once n_start + J*sel passes it)
+    (2, (16, 8, 1, 3, 2), (12, 2, 2, 4, 2)),     # nt_start = n_start + 3*sel_x; time 8, space 5 -> 5
+    (2, (14, 2, 2, 3, 2), (20, 11, 2, 4, 1)),    # n_start = nt_start + 4.5*sel_t; time 6, space 4 -> 4
+    (2, (20, 10, 2, 4, 2), (10, 1, 1, 3, 1)),    # nt_start = n_start + 9*sel_x; time 5, space 9 -> 5
+    (1, (12, 1, 1, 2, 1), (18, 7, 2, 3, 2)),     # 1-D, n_start = nt_start + 6*sel_t; time 11, space 5 -> 5
     (1, (8, 2, 2, 3, 2), (8, 3, 2, 3, 2)),   # 1-D space domain: time 3, space 2 -> 2
     (1, (6, 2, 1, 3, 1), (7, 1, 3, 4, 1)),   # 1-D space domain: time 4, space 2 -> 2
 ]
@@ -101,11 +107,15 @@ def _base(rng, kind, dim, T, X, mode):
     return case
 
 
-def _with_schedule(case, start, every, extra=2):
+def _with_schedule(case, start, every, extra=2, stop_after=None):
+    """stop_after = k: the run ends right after the k-th refinement step (jinns.solve shows its generator only
+    at the end: early stops are the way to see the probabilities after the first steps)"""
     c = dict(case)
     c["start"], c["every"] = start, every
     cap = rarlib.cap_of(c)
     n_iter = start + every * (cap + 1) + extra
+    if stop_after is not None:
+        n_iter = start + every * (min(stop_after, cap) - 1) + 1 if cap > 0 else start + 1
     if c["mode"] == "trigger":
         c["ops"] = [op for i in range(n_iter) for op in (["draw"], ["trigger", i, c["a0"]])]
     else:
@@ -149,7 +159,9 @@ def gen_cases(rng, tier):
                         ("nonstatio", 2, _NONSTATIO[4][1], _NONSTATIO[4][2]),
                         ("nonstatio", 2, _NONSTATIO[3][1], _NONSTATIO[3][2]),
                         ("statio", 1, None, _STATIO[4][1]),
-                        ("nonstatio", 1, _NONSTATIO[6][1], _NONSTATIO[6][2])]
+                        ("nonstatio", 2, _NONSTATIO[6][1], _NONSTATIO[6][2]),
+                        ("nonstatio", 2, _NONSTATIO[7][1], _NONSTATIO[7][2]),
+                        ("nonstatio", 1, _NONSTATIO[10][1], _NONSTATIO[10][2])]
         for kind, dim, T, X in trig_statics:
             base = _base(rng, kind, dim, T, X, "trigger")
             scheds = [(0, 1), (2, 3)] + rng.sample(all_sched, 6)
@@ -157,11 +169,15 @@ def gen_cases(rng, tier):
                 cases.append(_with_schedule(base, s, e))
         solve_statics = [("ode", 0, _ODE[0], None), ("statio", 2, None, _STATIO[0][1]),
                          ("nonstatio", 2, _NONSTATIO[0][1], _NONSTATIO[0][2]),
-                         ("nonstatio", 1, _NONSTATIO[6][1], _NONSTATIO[6][2])]
+                         ("nonstatio", 1, _NONSTATIO[10][1], _NONSTATIO[10][2])]
         for kind, dim, T, X in solve_statics:
             base = _base(rng, kind, dim, T, X, "solve")
             for s, e in dict.fromkeys([(0, 1)] + rng.sample(all_sched, 2)):
                 cases.append(_with_schedule(base, s, e))
+        for T, X in ((_NONSTATIO[6][1], _NONSTATIO[6][2]), (_NONSTATIO[7][1], _NONSTATIO[7][2])):
+            base = _base(rng, "nonstatio", 2, T, X, "solve")
+            s, e = rng.choice(all_sched)
+            cases.append(_with_schedule(base, s, e, stop_after=rng.choice([1, 2])))
     else:
         for kind, dim, T, X in _statics():
             base = _base(rng, kind, dim, T, X, "trigger")
@@ -182,6 +198,11 @@ def gen_cases(rng, tier):
             base = _base(rng, kind, dim, T, X, "solve")
             for s, e in all_sched:
                 cases.append(_with_schedule(base, s, e, extra=1))
+        for dim, T, X in _NONSTATIO[6:10]:
+            base = _base(rng, "nonstatio", dim, T, X, "solve")
+            for k in (1, 2, 3):
+                for s, e in rng.sample(all_sched, 3):
+                    cases.append(_with_schedule(base, s, e, stop_after=k))
     # a rejected configuration: rar_parameters without the initial count
     bad = _with_schedule(_base(rng, "ode", 0, _ODE[0], None, "trigger"), 1, 2)
     bad["ntStart_arg"] = None
